@@ -5,5 +5,6 @@ INVARIANT CleanExcludesTargets
 INVARIANT RunsIffAllResolve
 INVARIANT NinjaUnderstands
 INVARIANT SomeArgv
+INVARIANT VsSatisfiable
 CHECK_DEADLOCK FALSE
 POSTCONDITION Export
